@@ -1273,7 +1273,9 @@ struct V : RecursiveASTVisitor<V> {
     std::string q = F->getQualifiedNameAsString();
     bool extra = false;
     for (auto& e : ExtraEntries) if (q.rfind(e, 0) == 0) extra = true;
-    if (inMain || extra) found.push_back(F);
+    // roots: extern "C" harnesses (VT_HARNESS) and x_* instantiation wrappers of the unit
+    bool root = inMain && !isa<CXXMethodDecl>(F) && (F->isExternC() || F->getName().startswith("x_"));
+    if (root || extra) found.push_back(F);
     return true;
   }
 };
